@@ -100,6 +100,7 @@ type Fn struct {
 	closures  map[types.Object]*ast.FuncLit
 	synthetic bool
 	pubDone   bool
+	goStarted bool // literal that is the function of a go statement
 	pubw      map[*ast.Ident]string
 }
 
@@ -142,6 +143,7 @@ type world struct {
 	notes       []string
 	instNotes   map[string]int
 	sites       map[string]bool
+	mutPkgVars  map[*types.Var]bool // package-level variables written by some function other than init
 	siteUsed    map[string]bool
 	auditFailed bool
 	auditText   string
@@ -433,6 +435,7 @@ func (w *world) getLit(parent *Fn, lit *ast.FuncLit) *Fn {
 
 func (w *world) run() {
 	w.scanTypes()
+	w.scanPkgVars()
 	w.collectDecls()
 	// every declared function at least once (snapshot variant), in a stable order
 	var objs []*types.Func
@@ -655,6 +658,7 @@ type tr struct {
 	confHalf        string
 	viaIndex        int // walking the container of an index expression
 	inDefer         bool
+	inGo            bool
 	doneNotDeferred bool
 	pubw            map[*ast.Ident]string // assignment targets that are captured variables written after publication
 }
@@ -1222,7 +1226,11 @@ func (t *tr) call(e *ast.CallExpr, pre *[]*Node) *Node {
 	// immediately invoked literal
 	if lit, ok := fun.(*ast.FuncLit); ok {
 		args()
-		return &Node{K: KCall, F: t.w.getLit(t.fn, lit)}
+		lf := t.w.getLit(t.fn, lit)
+		if t.inGo {
+			lf.goStarted = true
+		}
+		return &Node{K: KCall, F: lf}
 	}
 	callee, recv := t.staticCallee(e)
 	if callee != nil {
@@ -1499,6 +1507,14 @@ func (t *tr) expr(e ast.Expr, wr bool, out *[]*Node) {
 	switch e := e.(type) {
 	case nil:
 	case *ast.Ident:
+		if v, ok := t.info.Uses[e].(*types.Var); ok && t.w.mutPkgVars[v] {
+			// a package-level variable that some function writes: no lock guards it
+			k := KRd
+			if wr {
+				k = KWr
+			}
+			*out = append(*out, &Node{K: k, L: t.w.loc("pkgvar:"+v.Name(), neverHeld), Note: v.Name() + " (package-level variable written at run time)"})
+		}
 		if fn, ok := t.info.Uses[e].(*types.Func); ok {
 			t.funcValue(fn, e.Pos(), "")
 		}
@@ -1841,6 +1857,76 @@ func (t *tr) breakable(s ast.Stmt, l *loopLbl) *Node {
 	return t.unknown(s.Pos(), "breakable")
 }
 
+// unbufferedSendInGoroutine: a send statement outside a select, in a literal started by `go`,
+// on a channel that the enclosing function made WITHOUT a buffer, while the enclosing function
+// does not itself receive from it unconditionally (it hands the channel to somebody who may
+// stop listening, e.g. a select with ctx.Done()): the goroutine is parked in `chan send` for
+// ever.  Reported as a write of "chan:<func>.<var>.unbuffered-send-in-goroutine" (translator
+// rule, outside the theorem).
+func (t *tr) unbufferedSendInGoroutine(s *ast.SendStmt) string {
+	if t.fn.lit == nil || !t.fn.goStarted {
+		return ""
+	}
+	id, ok := unparen(s.Chan).(*ast.Ident)
+	if !ok {
+		return ""
+	}
+	o := t.info.Uses[id]
+	root := t.fn.root()
+	if o == nil || root.decl == nil {
+		return ""
+	}
+	unbuffered, bareRecv := false, false
+	var walk func(n ast.Node, inLit bool, inSelect bool)
+	ast.Inspect(root.decl.Body, func(n ast.Node) bool {
+		switch x := n.(type) {
+		case *ast.AssignStmt:
+			for i, l := range x.Lhs {
+				if li, ok := l.(*ast.Ident); ok && (t.info.Defs[li] == o || t.info.Uses[li] == o) && i < len(x.Rhs) {
+					if c, ok := unparen(x.Rhs[i]).(*ast.CallExpr); ok {
+						if f, ok := c.Fun.(*ast.Ident); ok && f.Name == "make" && len(c.Args) >= 1 {
+							if _, isChan := t.info.Types[c.Args[0]].Type.Underlying().(*types.Chan); isChan {
+								unbuffered = len(c.Args) == 1
+								if len(c.Args) == 2 {
+									if tv := t.info.Types[c.Args[1]]; tv.Value != nil && tv.Value.String() == "0" {
+										unbuffered = true
+									}
+								}
+							}
+						}
+					}
+				}
+			}
+		}
+		return true
+	})
+	_ = walk
+	// an unconditional receive in the enclosing function itself (outside literals and selects)
+	var scan func(n ast.Node) bool
+	scan = func(n ast.Node) bool {
+		switch x := n.(type) {
+		case *ast.FuncLit, *ast.SelectStmt:
+			return false
+		case *ast.UnaryExpr:
+			if x.Op == token.ARROW {
+				if ri, ok := unparen(x.X).(*ast.Ident); ok && t.info.Uses[ri] == o {
+					bareRecv = true
+				}
+			}
+		case *ast.RangeStmt:
+			if ri, ok := unparen(x.X).(*ast.Ident); ok && t.info.Uses[ri] == o {
+				bareRecv = true
+			}
+		}
+		return true
+	}
+	ast.Inspect(root.decl.Body, scan)
+	if unbuffered && !bareRecv {
+		return "chan:" + root.name + "." + id.Name + ".unbuffered-send-in-goroutine"
+	}
+	return ""
+}
+
 // timerComm: is the communication a receive from a timer (time.After, Timer.C, Ticker.C)?
 func (t *tr) timerComm(comm ast.Stmt) bool {
 	var x ast.Expr
@@ -1890,6 +1976,9 @@ func (t *tr) lhs(e ast.Expr, out *[]*Node) {
 		return
 	}
 	if id, ok := unparen(e).(*ast.Ident); ok {
+		if v, ok := t.info.Uses[id].(*types.Var); ok && t.w.mutPkgVars[v] {
+			*out = append(*out, &Node{K: KWr, L: t.w.loc("pkgvar:"+v.Name(), neverHeld), Note: v.Name() + " (package-level variable written at run time)"})
+		}
 		if name, ok := t.pubw[id]; ok {
 			*out = append(*out, &Node{K: KWr, L: t.w.loc(name, neverHeld), Note: id.Name + " (captured by a published closure)"})
 		}
@@ -1910,7 +1999,11 @@ func (t *tr) stmt(s ast.Stmt) *Node {
 		if t.inComm {
 			return seq(t.effects(s.Chan), t.effects(s.Value))
 		}
-		return seq(t.effects(s.Chan), t.effects(s.Value), &Node{K: KWait, Note: exprString(s.Chan) + " <-"})
+		var leak *Node
+		if name := t.unbufferedSendInGoroutine(s); name != "" {
+			leak = &Node{K: KWr, L: t.w.loc(name, neverHeld), Note: "bare send on an unbuffered channel in a goroutine: blocks for ever when the receiver has given up"}
+		}
+		return seq(t.effects(s.Chan), t.effects(s.Value), leak, &Node{K: KWait, Note: exprString(s.Chan) + " <-"})
 	case *ast.IncDecStmt:
 		var out []*Node
 		t.expr(s.X, false, &out)
@@ -1960,7 +2053,9 @@ func (t *tr) stmt(s ast.Stmt) *Node {
 		return seq(out...)
 	case *ast.GoStmt:
 		var pre []*Node
+		t.inGo = true
 		a := t.call(s.Call, &pre)
+		t.inGo = false
 		if a == nil {
 			return seq(pre...)
 		}
